@@ -339,6 +339,8 @@ def journal_case(src, asan, idx, seed, tier):
 UNDO_DIRECTED = [
     [("fs_block_size", 1 << 20), ("key0.size", 64 << 20)],
     [("key0.size", "512*bs+bs")],
+    [("key0.size", "512*bs+1")],        # just above the replay buffer (E2UNDO_MAX_EXTENT_BLOCKS blocks); the file is padded so that the read has data
+    [("key0.size", "513*bs-1")],
     [("key0.size", 0xFFFFFFFF)],
     [("block_size", 0)],
     [("fs_block_size", 0)],
@@ -369,10 +371,14 @@ def undo_edit(d, r, edits=None):
         edits = []
         for _ in range(r.randint(1, 3)):
             f = r.choice(list(HDR) + ["key0.size", "key0.size", "key0.fsblk", "keyN.size"])
-            v = r.choice([0, 1, 511, 512, 1 << 16, 1 << 20, 64 << 20, 1 << 30, 0x7FFFFFFF, 0xFFFFFFFF, "512*bs+bs", "512*bs"])
+            v = r.choice([0, 1, 511, 512, 1 << 16, 1 << 20, 64 << 20, 1 << 30, 0x7FFFFFFF, 0xFFFFFFFF, "512*bs+bs", "512*bs", "512*bs+1", "513*bs-1"])
             edits.append((f, v))
     for f, v in edits:
-        if v == "512*bs+bs":
+        if v == "512*bs+1":
+            v = 512 * bs + 1
+        elif v == "513*bs-1":
+            v = 513 * bs - 1
+        elif v == "512*bs+bs":
             v = 513 * bs
         elif v == "512*bs":
             v = 512 * bs
@@ -384,6 +390,8 @@ def undo_edit(d, r, edits=None):
             k = koff + 16 + 16 * j
             if f.endswith("size"):
                 struct.pack_into("<I", d, k + 12, v & 0xFFFFFFFF)
+                if j == 0 and v <= (64 << 20) and len(d) < koff + bs + v:
+                    d.extend(bytes(koff + bs + v - len(d)))       # the recorded data the key claims is there to be read
             else:
                 struct.pack_into("<Q", d, k, v)
             struct.pack_into("<I", d, koff + 4, 0)
